@@ -29,7 +29,8 @@ P = {
          "newT flow census, defer-dominance, ordered-event rules in (*T).cleanup, lock-set dataflow", "DESIGN.md §3 C10"),
  "C11": ("no per-test-case state of a T survives into another bracket invocation: every checkOnce receives a fresh T (created in the same iteration) or every per-case field is provably reset; the failure flag is consulted after cleanup and on the skip path of the same invocation; the shared random stream is re-initialised per case and keeps no recording.",
          "field-access index to derive per-case fields; fresh-or-reset classification of bracket call sites", "DESIGN.md §3 C11"),
- "C12": None,
+ "C12": ("NOT the property as a whole (the outcome of a heuristic search over runtime values is not decidable by shape) — only three structural necessary conditions, each of which breaks exact boundaries for some threshold when violated: the boundary's bit band is generable for every bit length (folded guards of the biased integer core); the search is complete in shape (every word offered to minimize, minimize always reaches the binary search for large words and returns the minimiser's best, the binary search moves its ends only on evidence, minimizer.accept lowers best only under u < best and cond(u), every standalone group offered for removal); accepted candidates keep the failure. Correctness of the interval arithmetic and bit heuristics, pass interaction, 'given enough time' and the collection clauses are NOT decided.",
+         "interval solving of folded guards for L=1..64; must-pass-through and guard-fact rules over the minimiser's SSA", "DESIGN.md §3 C12"),
  "C13": ("byte→word decoding shape (little-endian, fresh zeroed 8-byte array per word, advance by bytes copied, loop while input remains), the exhaustive three-way verdict mapping nil/invalid/other → pass/Skip/Fatal, totality (every panic converted, loops progress), independence from unread words. Not decided: termination of the user's property.",
          "SSA shape rules on checkFuzz; exhaustive branch classification; shared overrun/recover/loop rules", "DESIGN.md §3 C13"),
  "C14": ("data-race freedom and atomic read-modify-write of the listed methods by a lock discipline valid for all schedules: every access to failed/cleanups/ctx/cancelCtx happens with T.mu held in the right mode on the same receiver, other fields are immutable after construction or atomic, no callback or re-locking call happens under the lock, Context re-checks under the write lock.",
